@@ -4,9 +4,18 @@
    The event queue (std::priority_queue<TimerEvent<T>> with the reversed operator<, i.e. the
    top is AN element of minimal _t) is a list in insertion order; which of several elements of
    equal minimal _t is the top is left to an oracle [k] supplied with every loop iteration, so
-   nothing proved here depends on the heap's tie-breaking.  Every operation happens under
-   _spin_lock (schedule, clear, and the body of one loop iteration including the callback), so
-   an execution is a sequence of such operations, each with the clock value it read.
+   nothing proved here depends on the heap's tie-breaking.
+
+   THE LOCK.  schedule() and clear() take _spin_lock for their whole effect on the queue, and one
+   pass of the loop body holds it (f8_scoped_spin_lock guard) from the look at the top of the
+   queue through pop, the CALLBACK, and the push-back of a repeating event.  Each of the three is
+   therefore one atomic step here ([schedule], [clear], [iter]), and an execution is an arbitrary
+   sequence of such steps made by any threads, each with the clock value it read; "clear() at an
+   arbitrary moment, from any thread" is a [clear] step anywhere between two other steps.  That
+   [iter] is ONE step - in particular that no clear() can fall between the pop and the push-back -
+   is exactly what holding the lock across the callback provides: C31/TimerUnlocked.v models the
+   loop with the callback outside the lock, and there the clear clause fails
+   (c31_clear_unlocked_refuted).
 
    Ghost state: [e_id] (the number of the schedule call that created the event; never read by
    the code below except to copy it) and the history [hist] of observable happenings, in the
@@ -145,20 +154,40 @@ Fixpoint drain (res : Z -> nat -> bool) (fuel : nat) (now : Z) (pref : list Z) (
       end
   end.
 
-Inductive sop := SSched (rep : bool) (ms : Z) | SAdv (dns : Z) | SClear.
+(* like [drain], but stops as soon as [nf] callbacks have run *)
+Fixpoint drainf (res : Z -> nat -> bool) (fuel : nat) (nf : nat) (now : Z) (pref : list Z) (s : state)
+  : state * list Z :=
+  match nf, fuel with
+  | O, _ => (s, pref)
+  | _, O => (s, pref)
+  | S nf', S f =>
+      match iter res (choose pref (q s)) now s with
+      | (s', Slept) => (s', pref)
+      | (s', Dropped) => drainf res f nf now pref s'
+      | (s', Fired) => drainf res f nf' now (tl pref) s'
+      end
+  end.
+
+(* SPark d nf: the clock advances by d, the timer thread runs nf callbacks (one of them is kept
+   from returning by the harness while a second thread calls clear(), which blocks on the lock),
+   then that clear() takes effect, then the thread runs until it sleeps.  nf is taken from the
+   implementation's trace (how many callbacks had run when clear() returned). *)
+Inductive sop := SSched (rep : bool) (ms : Z) | SAdv (dns : Z) | SClear | SPark (dns : Z) (nf : nat).
 
 (* the k-th schedule call of a script uses callback number k *)
 Definition sstep (res : Z -> nat -> bool) (c : state * Z * list Z * bool) (o : sop)
   : state * Z * list Z * bool :=
   match c with
   | (s, now, pref, okf) =>
-      let '(s1, now1) :=
+      let '(s1, now1, pref1) :=
         match o with
-        | SSched rep ms => (schedule now (Z.of_nat (next s)) rep ms s, now)
-        | SAdv d => (s, now + d)
-        | SClear => (clear now s, now)
+        | SSched rep ms => (schedule now (Z.of_nat (next s)) rep ms s, now, pref)
+        | SAdv d => (s, now + d, pref)
+        | SClear => (clear now s, now, pref)
+        | SPark d nf => let '(s', pref') := drainf res (S (length (q s))) nf (now + d) pref s in
+                        (clear (now + d) s', now + d, pref')
         end in
-      match drain res (S (length (q s1))) now1 pref s1 with
+      match drain res (S (length (q s1))) now1 pref1 s1 with
       | (s2, pref2, fin) => (s2, now1, pref2, okf && fin)
       end
   end.
